@@ -683,3 +683,37 @@ func (tr *Tr) allowFreshKeys(allowed, fin string, g *GhostDecl) string {
 	}
 	return allowed
 }
+
+// VerifyLemmas turns every `lemma [label] expr` of property prop into an obligation over the definitions only.
+func (e *Engine) VerifyLemmas(prop string) *Tr {
+	var ls []Clause
+	for _, l := range e.db.Lemmas {
+		if prop == "" || l.Prop == prop {
+			ls = append(ls, l)
+		}
+	}
+	if len(ls) == 0 {
+		return nil
+	}
+	tr := &Tr{
+		eng: e, topShort: "lemma", prop: prop,
+		declared: map[string]bool{}, sorts: map[string]string{}, obls: map[string]*Obl{},
+		init: &State{H: map[string]string{}}, used: map[string]bool{}, uninterp: map[string]bool{},
+	}
+	f := &Frame{tr: tr, top: true, vals: map[ssa.Value]Val{}, callName: map[ssa.Instruction]string{}}
+	f.cur = PP{R: "true", St: &State{H: map[string]string{}}}
+	for i, l := range ls {
+		env := &Env{f: f, vars: map[string]Val{}, cur: f.cur.St, old: tr.init}
+		t, err := env.boolExpr(l.E)
+		if err != nil {
+			tr.errorf("lemma %s: %v", l.Src, err)
+			continue
+		}
+		lbl := l.Label
+		if lbl == "" {
+			lbl = fmt.Sprintf("lemma%d", i+1)
+		}
+		f.addSite(l.Prop, lbl, "lemma", l.Src, "lemma", sNot(t))
+	}
+	return tr
+}
